@@ -5,6 +5,8 @@ from vf.harness import common as H
 from vf import families
 
 PROPERTY = "C08"
+# random 4..6-member definitions with several forking members can explode: cap them so that the budget reaches the other families
+SETTINGS_THOROUGH = {"case_budget": 45.0, "max_paths": 20000}
 BOUNDS = {"all": "definitions of the C02 family without to-end-of-stream arrays (exempt by the statement); full input = extent+slack "
                  "symbolic bytes (<= 12 quick / 32 thorough); EVERY cut point k of the input inside one path condition together with the "
                  "complete parse; fault injection: the j-th read (j engine-chosen, j < 6) returns 1 byte less than asked, or raises OSError; "
